@@ -123,14 +123,14 @@ func rayClass(f int) string {
 		return "cubic-zero-tangent"
 	case f&fCubEndAhead != 0:
 		return "cubic-end-vertex"
+	case f&fCubInfl != 0:
+		return "cubic-inflection" // the dropped inflection crossing is the more specific cause also when the ray passes a vertex elsewhere
 	case f&fHEdge != 0:
 		return "hedge"
 	case f&fTanVert != 0:
 		return "tangent-vertex"
 	case f&fVertex != 0:
 		return "vertex"
-	case f&fCubInfl != 0:
-		return "cubic-inflection"
 	case f&fTanCurve != 0:
 		return "curve-tangent"
 	}
